@@ -1402,6 +1402,55 @@ impl ResolvedService {
     }
 }
 
+/// Verification-only access to private items of this module (feature `verif-hooks`).
+#[cfg(feature = "verif-hooks")]
+#[allow(dead_code)]
+pub(crate) mod verif_access {
+    use super::*;
+    use crate::verif_hooks::Prop;
+
+    pub(crate) fn to_props(v: &[Prop]) -> Vec<TxtProperty> {
+        v.iter()
+            .map(|(k, val)| TxtProperty {
+                key: k.clone(),
+                val: val.clone(),
+            })
+            .collect()
+    }
+
+    pub(crate) fn from_props(v: &[TxtProperty]) -> Vec<Prop> {
+        v.iter().map(|p| (p.key.clone(), p.val.clone())).collect()
+    }
+
+    pub(crate) fn txt_encode(v: &[Prop]) -> Vec<u8> {
+        let props = to_props(v);
+        encode_txt(props.iter())
+    }
+
+    pub(crate) fn txt_decode(b: &[u8]) -> Vec<Prop> {
+        from_props(&decode_txt(b))
+    }
+
+    pub(crate) fn txt_decode_unique(b: &[u8]) -> Vec<Prop> {
+        from_props(&decode_txt_unique(b))
+    }
+
+    pub(crate) fn txt_get(v: &[Prop], key: &str) -> Option<Prop> {
+        let props = TxtProperties {
+            properties: to_props(v),
+        };
+        props.get(key).map(|p| (p.key.clone(), p.val.clone()))
+    }
+
+    pub(crate) fn escape_instance_name(name: &str) -> String {
+        super::escape_instance_name(name)
+    }
+
+    pub(crate) fn normalize_hostname(name: String) -> String {
+        super::normalize_hostname(name)
+    }
+}
+
 #[cfg(test)]
 mod tests {
     use super::{decode_txt, encode_txt, u8_slice_to_hex, ServiceInfo, TxtProperty};
